@@ -1844,7 +1844,7 @@ class Interpreter(InterpreterBase, HoldableObject):
         if progobj and not self.check_program_version(progobj, wanted, version_func, for_machine, extra_info):
             progobj = None
 
-        if progobj is None and fallback and required:
+        if progobj is None and fallback and required and wrap_mode != WrapMode.nofallback:
             progobj = self.notfound_program(args)
             mlog.log('Program', mlog.bold(progobj.get_name()), 'found:', mlog.red('NO'), *extra_info)
             extra_info.clear()
